@@ -36,6 +36,7 @@ def plan(tier, seed):
     jobs = [{"variant": "c" if s % 4 else "py", "part": "kernel", "shard": s, "nshards": n, "params": {"maxlen": 5 if thorough else 4}} for s in range(n)]
     nr = 16 if thorough else 2
     jobs += [{"variant": "c" if s % 2 else "py", "part": "random", "shard": s, "nshards": nr, "params": {"n": 150000 if thorough else 6000}} for s in range(nr)]
+    jobs += [{"variant": "c" if s % 2 else "py", "part": "optree", "shard": s, "nshards": nr, "params": {"n": 200000 if thorough else 6000}} for s in range(nr)]
     return jobs
 
 
@@ -102,6 +103,32 @@ def verify(ctx, entry, case, u, expected_path, has_auth, spliced=None):
         ctx.fail("not_idempotent", case, f"{entry}: str={s!r} re-parses to path {getattr(u2, 'raw_path', u2)!r} != {got!r}")
         return
     ctx.count("idempotent_ok")
+
+
+def invariant(ctx, u, case):
+    """Single-URL form of the property, for URLs produced by ANY chain of operations: an authority means no dot segment, and the
+    rendered string re-parses to the same path."""
+    from yarl import URL
+
+    ra = guarded(lambda: u.raw_authority)
+    got = guarded(lambda: u.raw_path)
+    if is_exc(ra) or is_exc(got):
+        return
+    ctx.ev(("optree", bool(ra), has_dot_segment(got), case.get("used_intermediates")))
+    if not ra:
+        return
+    if has_dot_segment(got):
+        ctx.fail("dot_segment_survives", case, f"optree: raw_path={got!r} still has a dot segment under authority {ra!r}")
+        return
+    s = guarded(str, u)
+    u2 = guarded(URL, s) if not is_exc(s) else s
+    if is_exc(u2):
+        ctx.count("optree_str_not_reparsable")  # C03's subject
+        return
+    if u2.raw_path != got and {u2.raw_path, got} != {"", "/"}:
+        ctx.fail("not_idempotent", case, f"optree: str={s!r} re-parses to path {u2.raw_path!r} != {got!r}")
+        return
+    ctx.count("optree_ok")
 
 
 def run_seq(ctx, segs, full):
@@ -253,7 +280,17 @@ def run_seq(ctx, segs, full):
 def run(ctx):
     if ctx.part == "replay":
         c = ctx.params["replay"]["case"]
+        if "op" in c:
+            from ..ops import replay_optree
+
+            replay_optree(ctx, c, invariant)
+            return
         run_seq(ctx, c["segs"], True)
+        return
+    if ctx.part == "optree":
+        from ..ops import run_optrees
+
+        run_optrees(ctx, invariant, ctx.params["n"], surrogates=True)
         return
     if ctx.part == "kernel":
         i = 0
